@@ -236,7 +236,7 @@ Fixpoint shortest_decimals (prec : Z) (m : Q) (j fuel : nat) : nat :=
 
 (* bound of the search for the number of decimals: no long double needs more (LYXP_NUM_FRAC_DIGITS_MAX, the
    smallest positive long double is about 3.6e-4951) *)
-Definition frac_digits_max : nat := 4951.
+Definition frac_digits_max : nat := Z.to_nat 4951.
 
 (* XPath 1.0 section 4.2 string(): NaN, 0 for both zeros, Infinity, -Infinity, integers without point and without
    leading zeros, otherwise decimal notation with at least one digit before and after the point and as many more
